@@ -286,20 +286,22 @@ theorem acceptAll_good (ps : List Pending) : ∀ {s : Server}, GoodSrv s → Goo
     unfold acceptAll
     simp only
     split
-    · rename_i ht
-      refine ih ⟨h.listening, h.ix, ?_, fun hf => by simp [ht] at hf⟩
-      rw [ht]
-      exact dictSet_all h.cx (newRem_good _ _).1
-    · rename_i ht
-      have ht' : s.tls = false := by simpa using ht
-      refine ih ⟨h.listening, ?_, h.cx, h.plain⟩
-      rw [ht']
-      exact dictSet_all h.ix (newRem_good _ _).2
+    · exact ih ⟨h.listening, h.ix, h.cx, h.plain⟩
+    · split
+      · rename_i ht
+        refine ih ⟨h.listening, h.ix, ?_, fun hf => by simp [ht] at hf⟩
+        rw [ht]
+        exact dictSet_all h.cx (newRem_good _ _).1
+      · rename_i ht
+        have ht' : s.tls = false := by simpa using ht
+        refine ih ⟨h.listening, ?_, h.cx, h.plain⟩
+        rw [ht']
+        exact dictSet_all h.ix (newRem_good _ _).2
 
 theorem acceptAll_tls (ps : List Pending) : ∀ (s : Server), (acceptAll s ps).tls = s.tls := by
   induction ps with
   | nil => intro s; rfl
-  | cons p ps ih => intro s; unfold acceptAll; simp only; split <;> rw [ih]
+  | cons p ps ih => intro s; unfold acceptAll; simp only; split; rw [ih]; split <;> rw [ih]
 
 theorem connects_total {s : Server} (h : GoodSrv s) : (s.connects).2 = none ∧ GoodSrv (s.connects).1 := by
   unfold Server.connects
